@@ -479,3 +479,16 @@ META["C20"] = {
     "note": "Only executed schedules are judged; the harness' own goroutines are kept race-free and excluded by stack inspection.",
     "technique": "generated concurrent workloads (rapid) under the Go race detector as oracle",
 }
+
+# native fuzz targets (thorough tier only; the oracle is inside each target)
+PROPS["C09"]["units"].append(F("c09_fuzz_stream", "c09", "FuzzC09Stream", 90))
+PROPS["C09"]["units"].append(F("c09_fuzz_rapid", "c09", "FuzzC09Rapid", 60))
+PROPS["C07"]["units"].append(F("c07_fuzz_rapid", "c07", "FuzzC07Rapid", 90))
+PROPS["C07"]["units"].append(F("c07_fuzz_bytes", "c07", "FuzzC07Bytes", 90))
+PROPS["C08"]["units"].append(F("c08_fuzz_rapid", "c08", "FuzzC08Rapid", 60))
+PROPS["C08"]["units"].append(F("c08_fuzz_text", "c08", "FuzzC08Text", 90))
+PROPS["C10"]["units"].append(F("c10_fuzz_decoder", "c10", "FuzzC10Decoder", 90))
+PROPS["C10"]["units"].append(F("c10_fuzz_rapid", "c10", "FuzzC10Rapid", 60))
+PROPS["C12"]["units"].append(F("c12_fuzz_decoders", "c12", "FuzzC12Decoders", 90))
+PROPS["C12"]["units"].append(F("c12_fuzz_rapid", "c12", "FuzzC12Rapid", 60))
+PROPS["C13"]["units"].append(F("c13_fuzz_deserialize", "c13", "FuzzC13Deserialize", 90))
